@@ -21,6 +21,9 @@ EXTENDS Naturals, FiniteSets, Sequences
 CONSTANTS Threads, MaxCalls
 None == 0
 ThreadNaming == {"distinct", "shared"}
+\* every way of making a store is the same TryCreate: the factory methods create / open / append, a subclass, and the
+\* public constructor called directly
+EntryPoints == {"factory", "subclass", "constructor"}
 ASSUME None \notin Threads
 
 VARIABLES owner,    \* thread id allowed to create stores, or None
